@@ -639,6 +639,49 @@ def getRangesWarm (A : AEAD) (strict : Bool) (storeChunk : Nat) (B : Backend) (l
     | .error .notFound => getRanges A strict storeChunk B loc ranges
     | r => r
 
+/-! ## `copy_opts` / `rename_opts`: the source's document is read, verified, and re-sealed for the target -/
+
+/-- Does the source verify every metadata document its retry loops use — also the one re-resolved after
+NotFound?  Regenerated from `SidecarStore::copy_payload`, `get_opts`, `get_ranges` and the verifier closure
+of `copy_opts` (`Gen.resolveLoops`, `Gen.copyVerifyClosure`). -/
+def retryVerifies : Bool := resolveLoops.all (·.2) && copyVerifyClosure
+
+/-- One iteration of the loop in `copy_payload` + the reseal of `copy_opts`, for the document the iteration
+resolved: verify it **under the source path**, find the payload it points at, build the target's document.
+`verify = false` is the iteration as it would run if the source skipped the verification. Returns the
+payload bytes copied verbatim and the document sealed for `to`. -/
+def copyWith (A : AEAD) (strict : Bool) (B : Backend) (src to : Bytes) (f : Fresh) (verify : Bool)
+    (doc : Except RErr Meta) : Except RErr (Bytes × Meta) :=
+  match doc with
+  | .error e => .error e
+  | .ok m =>
+    match (if verify then verifyMetadata A strict src m else .ok .authenticated) with
+    | .error e => .error e
+    | .ok _ =>
+      match B.payload src m.generation with
+      | none => .error .notFound
+      | some p =>
+        match copyMeta A to m f with
+        | .error e => .error e
+        | .ok d => .ok (p, d)
+
+/-- `copy_opts` on a cold instance. -/
+def copyObject (A : AEAD) (strict : Bool) (B : Backend) (src to : Bytes) (f : Fresh) :
+    Except RErr (Bytes × Meta) :=
+  copyWith A strict B src to f true (B.metaDoc src)
+
+/-- `copy_opts` / `rename_opts` on a warm instance: first iteration on the cached document; when the payload
+it names is gone the document is re-resolved once and the loop runs again — verifying the re-read document
+exactly if the source does (`retryVerifies`, generated). -/
+def copyObjectWarm (A : AEAD) (strict : Bool) (B : Backend) (src to : Bytes) (f : Fresh)
+    (cached : Option Meta) : Except RErr (Bytes × Meta) :=
+  match cached with
+  | none => copyObject A strict B src to f
+  | some m0 =>
+    match copyWith A strict B src to f true (.ok m0) with
+    | .error .notFound => copyWith A strict B src to f retryVerifies (B.metaDoc src)
+    | r => r
+
 /-- A listing entry (`listing_entry` + the verifying policy): `(size, e_tag, committed_at_ms)` of the
 verified document; the payload object is not touched. -/
 def listEntry (A : AEAD) (strict : Bool) (B : Backend) (loc : Bytes) :
